@@ -35,7 +35,7 @@ type c14LoadCase struct {
 }
 
 func init() {
-	vfRapid("C14/load-and-verify", "at least one input fails a stage (parse, signature, auth chain, auth at state) or is listed twice, and at least one input passes every stage", 400, 10000, 8, c14GenLoad, c14CheckLoad)
+	vfRapid("C14/load-and-verify", "at least one input fails a stage (parse, signature, auth chain, auth at state) or is listed twice, and at least one input passes every stage", 900, 16000, 8, c14GenLoad, c14CheckLoad)
 }
 
 var c14LoadFaultKinds = []string{
@@ -44,7 +44,7 @@ var c14LoadFaultKinds = []string{
 }
 
 func c14GenLoad(t *rapid.T) c14LoadCase {
-	w := c14GenWorld(t, 8, 22)
+	w := c14GenWorld(t, 5, 22)
 	r := w.r
 	c := c14LoadCase{Version: r.Version}
 	n := rapid.IntRange(1, 6).Draw(t, "nInput")
